@@ -8,6 +8,7 @@ conformance : all ordered pairs of the universe through gojq.Compare in 7 pairs 
               array subtraction, index/indices, keys, object iteration, key order of tojson) on arrays of universe values
               (many ties, up to 24 elements) validated by TLC against Builtins.tla through JqSem.
 """
+import json
 import random
 
 import evalfam
@@ -15,7 +16,7 @@ import jqgen
 import vcheck as vc
 
 PROP = "C11"
-REPS = ["native", "big", "json.Number", "float64"]
+REPS = ["native", "big", "json.Number", "float64", "?", "?", "?", "?", "?", "native (sharing memory with the other operand where one is a prefix of / equal to the other)", "the same, nested one level down"]
 
 CONSUMERS = [
     ".xs | sort", ".xs | sort_by(.)", ".ts | sort_by(.[0])", ".ts | sort_by(.[0]) | map(.[1])", ".ts | group_by(.[0])", ".ts | group_by(.[0]) | map(map(.[1]))",
@@ -91,6 +92,74 @@ def run(tier, seed, replay):
                 cases.append({"id": len(cases), "src": q, "inputs": [inp]})
         counters = evalfam.check_cases(rep, work, vh, prelude, cases, timeout=1500, per_shard_min=30)
         rep.cov["consumer_verdicts"] = counters
+        # 4. which of several EQUAL elements: the elements are number literals of equal value and different spelling (1, 1.0, 1e0, 10e-1 ...),
+        #    read with their spelling kept; the consumer of the order runs on them on the real code; its outputs are mapped back to element
+        #    indices; the specification evaluates the index form of the same law (to_entries ... .key) on the plain values.
+        SPELL = {0: ["0", "0.0", "0e0", "0.00"], 1: ["1", "1.0", "1.00", "1e0", "10e-1", "0.1e1"], 2: ["2", "2.0", "2e0", "20e-1", "0.2e1"], -1: ["-1", "-1.0", "-1e0", "-10e-1"], 1.5: ["1.5", "1.50", "15e-1", "0.15e1"], 10: ["10", "10.0", "1e1", "1.0e1"]}
+        LAWS = [("sort", "to_entries | sort_by(.value) | map(.key)", "list"), ("sort_by(.)", "to_entries | sort_by(.value) | map(.key)", "list"), ("sort_by(-.)", "to_entries | sort_by(-.value) | map(.key)", "list"),
+                ("min", "to_entries | min_by(.value) | .key", "one"), ("max", "to_entries | max_by(.value) | .key", "one"), ("min_by(.)", "to_entries | min_by(.value) | .key", "one"), ("max_by(.)", "to_entries | max_by(.value) | .key", "one"),
+                ("min_by(-.)", "to_entries | min_by(-.value) | .key", "one"), ("max_by(-.)", "to_entries | max_by(-.value) | .key", "one"), ("group_by(.)", "to_entries | group_by(.value) | map(map(.key))", "groups"),
+                ("group_by(-.)", "to_entries | group_by(-.value) | map(map(.key))", "groups"), ("[.[] | select(. == 1)]", "to_entries | map(select(.value == 1) | .key)", "list"), ("(sort | first), (sort | last)", "to_entries | sort_by(.value) | (first, last) | .key", "ones"),
+                ("[limit(3; sort[])]", "to_entries | sort_by(.value) | map(.key) | .[:3]", "list"), ("reverse | max", "to_entries | reverse | max_by(.value) | .key", "one"), ("reverse | min", "to_entries | reverse | min_by(.value) | .key", "one")]
+        tcases, scases = [], []
+        for _ in range(120 if quick else 3000):
+            vals = [r.choice(list(SPELL)) for _ in range(r.choice([2, 3, 4, 5, 6, 8]))]
+            used, lits = set(), []
+            for v in vals:
+                cand = [x for x in SPELL[v] if x not in used]
+                if not cand:
+                    break
+                lits.append(r.choice(cand))
+                used.add(lits[-1])
+            if len(lits) != len(vals):
+                continue
+            for q, law, shape in r.sample(LAWS, 4 if quick else 8):
+                tcases.append({"id": len(tcases), "src": q, "text": "[" + ",".join(lits) + "]", "lits": lits, "shape": shape})
+                scases.append({"id": len(scases), "src": law, "inputs": [jqgen.V(vals)]})
+        vc.write_ndjson(work.path("ties.cases"), tcases)
+        vc.sh([vh, "ties", "-in", work.path("ties.cases"), "-out", work.path("ties.out")], timeout=900)
+        tres = {x["id"]: x for x in vc.read_ndjson(work.path("ties.out"))}
+        srecs = evalfam.replay(work, vh, scases, tag="tiespec")
+        recs2, meta = [], []
+        for tc, srec in zip(tcases, srecs):
+            x = tres.get(tc["id"], {})
+            rep.count("evaluations")
+            if x.get("panic"):
+                rep.violation("panic: %s in %r on %s" % (x["panic"], tc["src"], tc["text"]), {"family": "ties", "case": tc, "actual": x})
+                continue
+            if "runs" not in srec or "out" not in x or x.get("err"):
+                rep.count("out_of_model")
+                continue
+            ix = {l: i for i, l in enumerate(tc["lits"])}
+            try:
+                outs = [json.loads(o, parse_float=str, parse_int=str) for o in x["out"]]
+
+                def back(o):
+                    if isinstance(o, list):
+                        return [back(e) for e in o]
+                    return ix[o]
+                # the literal spellings are read back as strings (parse_float/parse_int = str): each names one element
+                mapped = [back(o) for o in outs]
+            except Exception:
+                rep.violation("%r on %s returned something that is not made of the input's elements: %s" % (tc["src"], tc["text"], x["out"]), {"family": "ties", "case": tc, "actual": x})
+                continue
+            srec = dict(srec)
+            run0 = {k: v for k, v in srec["runs"][0].items() if k not in ("err", "panic", "long")}
+            srec["runs"] = [dict(run0, out=[jqgen.V(m) for m in mapped])]
+            recs2.append(srec)
+            meta.append((tc, x, mapped))
+        verdicts, stats = vc.validate_sharded(work, recs2, "ValidateEval.tla", "ValidateEval.cfg", {"VERIF_PRELUDE": prelude}, tag="ties", timeout=900, per_shard_min=40)
+        rep.add_tlc(stats)
+        for (tc, x, mapped), v in zip(meta, verdicts):
+            if "tlc" in v or v["runs"][0]["v"] in ("oom", "long"):
+                rep.count("out_of_model")
+            elif v["runs"][0]["v"] == "agree":
+                rep.count("traces_validated_against_impl")
+                rep.nontrivial(["ties", tc["src"], tc["text"]])
+            else:
+                exp = [jqgen.unV(e) for e in v["runs"][0]["exp"]["o"]]
+                rep.violation("%r on %s returns %s, i.e. the elements number %s (0-based); the order laws (first / last extreme, stable permutation, groups in input order) say %s" % (
+                    tc["src"], tc["text"], x["out"], mapped, exp), {"family": "ties", "case": tc, "actual": x["out"], "expected": exp})
         rep.cov["rule"] = ("pairs: all ordered pairs of the universe x 7 representation pairs through gojq.Compare; consumers: arrays (0..24 elements, many ties, tagged for stability) "
                            "through every order-based builtin; non-trivial = consumer case whose spec result is non-empty, or a whole matrix")
         return rep.finish()
